@@ -44,31 +44,33 @@ type OblResult struct {
 }
 
 type JobResult struct {
-	Job        Job
-	Paths      int
-	OkPaths    int
-	Infeasible int
-	PanicPaths int
-	Bounded    int
-	Undecided  []string
-	Obls       []OblResult
-	Queries    int
-	FeasQ      int
-	GlobalInit map[string]bool
-	SolverTime time.Duration
-	Fallbacks  map[string]int // queries of this job decided by a fallback solver
-	Instrs     int
-	Funcs      map[string]bool
-	Witness    int
-	GlobalW    map[string]bool
-	GlobalR    map[string]bool
-	LoopFuncs  map[string]bool
-	Wall       time.Duration
-	PathData   []PathResult
-	RaceChecks int
-	MaxTrace   int
-	Notes      []string
-	Err        string
+	Job         Job
+	Paths       int
+	OkPaths     int
+	Infeasible  int
+	PanicPaths  int
+	Bounded     int
+	Undecided   []string
+	Obls        []OblResult
+	Queries     int
+	FeasQ       int
+	GlobalInit  map[string]bool
+	GlobalAtomW map[string]bool
+	GlobalAtomR map[string]bool
+	SolverTime  time.Duration
+	Fallbacks   map[string]int // queries of this job decided by a fallback solver
+	Instrs      int
+	Funcs       map[string]bool
+	Witness     int
+	GlobalW     map[string]bool
+	GlobalR     map[string]bool
+	LoopFuncs   map[string]bool
+	Wall        time.Duration
+	PathData    []PathResult
+	RaceChecks  int
+	MaxTrace    int
+	Notes       []string
+	Err         string
 }
 
 type Runner struct {
@@ -176,7 +178,7 @@ func (r *Runner) runJob(job Job, st *Store, sol *Solver) (jr JobResult) {
 	}
 	e := &Exec{st: st, sol: sol, prog: r.L.prog, L: r.L, overrides: job.Overrides, harnessPkg: pkg,
 		funcsSeen: jr.Funcs, maxForks: 64, unwind: 70000, qcache: map[[2]int]Verdict{},
-		globalW: map[string]bool{}, globalInit: map[string]bool{}, globalR: map[string]bool{}, loopFuncs: map[string]bool{}}
+		globalW: map[string]bool{}, globalInit: map[string]bool{}, globalAtomW: map[string]bool{}, globalAtomR: map[string]bool{}, globalR: map[string]bool{}, loopFuncs: map[string]bool{}}
 	e.aliasResolve = job.Alias
 	e.deadline = r.deadline
 	if job.BudgetS > 0 {
@@ -273,6 +275,8 @@ func (r *Runner) runJob(job Job, st *Store, sol *Solver) (jr JobResult) {
 	}
 	jr.GlobalW = e.globalW
 	jr.GlobalInit = e.globalInit
+	jr.GlobalAtomW = e.globalAtomW
+	jr.GlobalAtomR = e.globalAtomR
 	jr.GlobalR = e.globalR
 	jr.LoopFuncs = e.loopFuncs
 	jr.RaceChecks = e.raceChecks
